@@ -591,3 +591,193 @@ Proof.
   - apply (R_nonempty _ _ HR).
   - intros o. apply spenders_NoDup. apply (R_nodup _ _ HR).
 Qed.
+
+(* ---------------------------------------------------------------------------------------- *)
+(* statements about the reference alone *)
+Lemma cfold_spec p t body : forall c,
+  (NoDup c -> NoDup (cfold p t body c)) /\
+  (forall x, x ∈ cfold p t body c <->
+             x ∈ c \/ (x <> t /\ exists o, o ∈ body /\ x ∈ spenders p o)).
+Proof.
+  induction body as [|o body IH]; intros c.
+  - simpl. split; [tauto|]. intros x. split; [tauto|].
+    intros [Hx|(_ & o & Ho & _)]; [exact Hx|]. apply elem_of_nil in Ho. destruct Ho.
+  - unfold cfold. simpl fold_left. fold (cfold p t body).
+    destruct (IH (aic c (spenders p o) t)) as [IHn IHe].
+    destruct (aic_spec (spenders p o) c t) as [An Ae].
+    split; [tauto|]. intros x. rewrite IHe, Ae. split.
+    + intros [[Hx|[Hx Hne]]|(Hne & o' & Ho' & Hs)].
+      * tauto.
+      * right. split; [exact Hne|]. exists o. rewrite elem_of_cons. auto.
+      * right. split; [exact Hne|]. exists o'. rewrite elem_of_cons. auto.
+    + intros [Hx|(Hne & o' & Ho' & Hs)]; [tauto|].
+      apply elem_of_cons in Ho'. destruct Ho' as [->|Ho'].
+      * left. right. tauto.
+      * right. split; [exact Hne|]. eauto.
+Qed.
+
+Lemma conflicts_of_elem p t body x :
+  x ∈ conflicts_of p t body <-> (x <> t /\ exists b', (x, b') ∈ p /\ shares body b').
+Proof.
+  change (conflicts_of p t body) with (cfold p t body []).
+  rewrite (proj2 (cfold_spec p t body [])). rewrite elem_of_nil. split.
+  - intros [[]|(Hne & o & Ho & Hs)]. split; [exact Hne|].
+    apply spenders_elem in Hs. destruct Hs as (b & Hp & Hob). exists b. split; [exact Hp|].
+    exists o. rewrite <- !elem_of_list_In. auto.
+  - intros (Hne & b & Hp & o & Ho & Hob). right. split; [exact Hne|].
+    exists o. rewrite elem_of_list_In. split; [exact Ho|].
+    apply spenders_elem. exists b. rewrite elem_of_list_In. auto.
+Qed.
+
+Theorem add_returns_conflicts :
+  forall (p : pool) (t : Z) (body : list Z),
+    NoDup (map fst p) ->
+    let c := conflicts_of p t body in
+    NoDup c /\
+    forall t', In t' c <-> (t' <> t /\ exists b', In (t', b') p /\ shares body b').
+Proof.
+  intros p t body Hnd c. subst c. split.
+  - change (conflicts_of p t body) with (cfold p t body []). apply cfold_spec. constructor.
+  - intros t'. rewrite <- elem_of_list_In, conflicts_of_elem. split.
+    + intros (Hne & b & Hp & Hs). split; [exact Hne|]. exists b. rewrite <- elem_of_list_In. auto.
+    + intros (Hne & b & Hp & Hs). split; [exact Hne|]. exists b. rewrite elem_of_list_In. auto.
+Qed.
+
+Theorem no_false_conflict :
+  forall (p : pool) (t : Z) (body : list Z),
+    (forall t' b', In (t', b') p -> t' <> t -> ~ shares body b') ->
+    conflicts_of p t body = [].
+Proof.
+  intros p t body Hno. destruct (conflicts_of p t body) as [|x l] eqn:E; [reflexivity|].
+  assert (Hx : x ∈ conflicts_of p t body) by (rewrite E; left).
+  apply conflicts_of_elem in Hx. destruct Hx as (Hne & b & Hp & Hs).
+  exfalso. apply (Hno x b); [apply elem_of_list_In; exact Hp | exact Hne | exact Hs].
+Qed.
+
+(* conflicting *)
+Lemma shares_nil b : ~ shares [] b.
+Proof. intros (o & [] & _). Qed.
+
+Lemma shares_snoc body o b : shares (body ++ [o]) b <-> shares body b \/ o ∈ b.
+Proof.
+  unfold shares. split.
+  - intros (o' & Ho' & Hb). apply in_app_or in Ho'. destruct Ho' as [Ho'|[->|[]]].
+    + left. eauto.
+    + right. apply elem_of_list_In. exact Hb.
+  - intros [(o' & Ho' & Hb)|Ho].
+    + exists o'. split; [apply in_or_app; auto | exact Hb].
+    + exists o. split; [apply in_or_app; simpl; auto | apply elem_of_list_In; exact Ho].
+Qed.
+
+Lemma filter_ext_in {A} (P Q : A -> Prop) `{!forall x, Decision (P x)} `{!forall x, Decision (Q x)}
+    (l : list A) : (forall x, x ∈ l -> (P x <-> Q x)) -> filter P l = filter Q l.
+Proof.
+  induction l as [|a l IH]; intros Hext; [reflexivity|].
+  rewrite !filter_cons.
+  assert (Ha : P a <-> Q a) by (apply Hext; left).
+  rewrite IH by (intros x Hx; apply Hext; right; exact Hx).
+  destruct (decide (P a)), (decide (Q a)); tauto.
+Qed.
+
+Lemma NoDup_fst_inj (p : list (Z * list Z)) t b1 b2 :
+  NoDup (map fst p) -> (t, b1) ∈ p -> (t, b2) ∈ p -> b1 = b2.
+Proof.
+  induction p as [|e p IH]; intros Hnd H1 H2.
+  - apply elem_of_nil in H1. destruct H1.
+  - change (map fst (e :: p)) with (fst e :: map fst p) in Hnd.
+    apply NoDup_cons in Hnd. destruct Hnd as [Hni Hnd].
+    apply elem_of_cons in H1. apply elem_of_cons in H2.
+    assert (Hin : forall b, (t, b) ∈ p -> t ∈ map fst p).
+    { intros b Hb. apply elem_of_list_fmap. exists (t, b). auto. }
+    destruct H1 as [<-|H1], H2 as [E2|H2].
+    + congruence.
+    + destruct Hni. simpl. eapply Hin; eauto.
+    + subst e. destruct Hni. simpl. eapply Hin; eauto.
+    + auto.
+Qed.
+
+Lemma NoDup_fst_filter (P : Z * list Z -> Prop) `{!forall x, Decision (P x)}
+    (p : list (Z * list Z)) : NoDup (map fst p) -> NoDup (map fst (filter P p)).
+Proof.
+  induction p as [|e p IH]; intros Hnd; [constructor|].
+  change (map fst (e :: p)) with (fst e :: map fst p) in Hnd.
+  apply NoDup_cons in Hnd. destruct Hnd as [Hni Hnd]. rewrite filter_cons.
+  destruct (decide (P e)); [|auto].
+  change (NoDup (fst e :: map fst (filter P p))). apply NoDup_cons. split; [|auto].
+  intros Hin. apply Hni. apply elem_of_list_fmap in Hin. destruct Hin as (y & Hy & Hin).
+  apply elem_of_list_filter in Hin. apply elem_of_list_fmap. exists y. tauto.
+Qed.
+
+Lemma fold_remove_tx l : forall p : list (Z * list Z),
+  fold_left remove_tx l p = filter (fun e => fst e ∉ l) p.
+Proof.
+  induction l as [|t l IH]; intros p.
+  - simpl. symmetry. apply filter_all. intros x _. apply not_elem_of_nil.
+  - simpl fold_left. rewrite IH. unfold remove_tx, pool. rewrite list_filter_filter.
+    apply filter_ext_in. intros e _. rewrite not_elem_of_cons. tauto.
+Qed.
+
+Lemma rcf_spec (p : pool) : NoDup (map fst p) -> forall body,
+  fst (fold_left rcf_outer body (p, [])) = filter (fun e => ~ shares body (snd e)) p /\
+  NoDup (snd (fold_left rcf_outer body (p, []))) /\
+  (forall x, x ∈ snd (fold_left rcf_outer body (p, [])) <->
+             exists b, (x, b) ∈ p /\ shares body b).
+Proof.
+  intros Hnd body. induction body as [|o body IH] using rev_ind.
+  - simpl. split; [|split].
+    + symmetry. apply filter_all. intros x _. apply shares_nil.
+    + constructor.
+    + intros x. rewrite elem_of_nil. split; [tauto|]. intros (b & _ & Hs).
+      exact (shares_nil _ Hs).
+  - rewrite fold_left_app. simpl fold_left.
+    destruct (fold_left rcf_outer body (p, [])) as [p1 acc]. simpl in IH.
+    destruct IH as (Hp1 & Hnacc & Hacc). simpl.
+    assert (Hin1 : forall e, e ∈ p1 <-> ~ shares body (snd e) /\ e ∈ p).
+    { intros e. rewrite Hp1.
+      exact (elem_of_list_filter (fun e : Z * list Z => ~ shares body (snd e)) p e). }
+    assert (Hsp : forall x, x ∈ spenders p1 o <->
+                            exists b, (x, b) ∈ p /\ ~ shares body b /\ o ∈ b).
+    { intros x. rewrite spenders_elem. split.
+      - intros (b & Hb & Ho). apply Hin1 in Hb. simpl in Hb. exists b. tauto.
+      - intros (b & Hb & Hns & Ho). exists b. split; [|exact Ho]. apply Hin1. simpl. tauto. }
+    split; [|split].
+    + rewrite fold_remove_tx.
+      transitivity (filter (fun e : Z * list Z => fst e ∉ spenders p1 o)
+                      (filter (fun e : Z * list Z => ~ shares body (snd e)) p)).
+      { subst p1. reflexivity. }
+      unfold pool. rewrite list_filter_filter.
+      apply filter_ext_in. intros [t b] He. simpl. rewrite shares_snoc, Hsp. split.
+      * intros [Hns Hnb] [Hs|Ho]; [tauto|]. apply Hns. exists b. tauto.
+      * intros Hn. split; [|tauto]. intros (b' & Hb' & Hns & Ho).
+        assert (b' = b) by (eapply NoDup_fst_inj; eauto). subst b'. tauto.
+    + apply NoDup_app. split; [exact Hnacc|]. split.
+      * intros x Hx Hx'. apply Hacc in Hx. apply Hsp in Hx'.
+        destruct Hx as (b & Hb & Hs). destruct Hx' as (b' & Hb' & Hns & Ho).
+        assert (b' = b) by (eapply NoDup_fst_inj; eauto). subst b'. tauto.
+      * apply spenders_NoDup. rewrite Hp1. apply NoDup_fst_filter. exact Hnd.
+    + intros x. rewrite elem_of_app, Hacc, Hsp. split.
+      * intros [(b & Hb & Hs)|(b & Hb & Hns & Ho)]; exists b; rewrite shares_snoc; tauto.
+      * intros (b & Hb & Hs). apply shares_snoc in Hs.
+        destruct (decide (shares body b)) as [Hd|Hd].
+        -- left. eauto.
+        -- right. exists b. tauto.
+Qed.
+
+Theorem conflicting_evicts :
+  forall (p : pool) (body : list Z),
+    NoDup (map fst p) ->
+    let r := ref_step p (OConflicting body) in
+    (forall t', In t' (tl (snd r)) <-> exists b', In (t', b') p /\ shares body b') /\
+    NoDup (tl (snd r)) /\
+    fst r = filter (fun e => ~ shares body (snd e)) p.
+Proof.
+  intros p body Hnd r. subst r.
+  change (ref_step p (OConflicting body))
+    with (let '(p1, c) := fold_left rcf_outer body (p, []) in (p1, OK :: c)).
+  destruct (rcf_spec p Hnd body) as (H1 & H2 & H3).
+  destruct (fold_left rcf_outer body (p, [])) as [p1 c]. simpl in H1, H2, H3. simpl.
+  split; [|split; [exact H2 | exact H1]].
+  intros t'. rewrite <- elem_of_list_In, H3. split.
+  - intros (b & Hb & Hs). exists b. rewrite <- elem_of_list_In. auto.
+  - intros (b & Hb & Hs). exists b. rewrite elem_of_list_In. auto.
+Qed.
